@@ -57,7 +57,7 @@ def call(obj, op, arg):
             return ("ok", None, None)
         raw = getattr(obj, op)(arg)
         return ("ok", canon(raw), raw)
-    except SimInterrupt:
+    except (SimInterrupt, core.SimAllocFail):
         return ("int", None, None)
     except core.CallHang:
         return ("hang", None, None)
@@ -249,8 +249,12 @@ class Sim:
             uspec_now = None
         fired = None
         if fkind == "interrupt":
-            tr = LineTracer(int(fault["at"]))
+            tr = LineTracer(int(fault["at"]), alloc=bool(fault.get("alloc")))
             res = tr.run(lambda: call(self.A, op, arg))
+            if tr.fired_at is not None and fault.get("alloc"):
+                if res[0] == "exc":
+                    res = ("int", None, None)
+                self.probe("alloc_fail_swallowed" if res[0] == "ok" else "alloc_fail_propagated")
             if res[0] == "int":
                 fired = "interrupt"
         elif fkind == "flaky":
@@ -593,6 +597,8 @@ def gen_step(rng, sim, cfg, datasets):
                 st["fault"] = {"kind": "flaky", "site": site, "at": 1}
             else:
                 st["fault"] = {"kind": "interrupt", "at": int(rng.integers(1, 60 if op == "A_predict" else 30))}
+                if rng.random() < 0.3:
+                    st["fault"]["alloc"] = True
     return st
 
 
